@@ -452,6 +452,12 @@ func (h *apiHandler) serveEventStream(start time.Time, req *http.Request, res ht
 						msg = []byte(":\n\n")
 					}
 					if _, err := res.Write(msg); err != nil {
+						// Keep receiving until the stream is removed and closed below.
+						// Otherwise a broadcast that happens before then would block
+						// forever while holding the mutex needed to remove the stream.
+						streamWasClosed <- struct{}{}
+						for range stream {
+						}
 						return
 					}
 					flusher.Flush()
